@@ -289,3 +289,23 @@ def describe_change(before, obj, name):
             return np.array2string(a.ravel()[:4], precision=6) + ("..." if a.size > 4 else "")
         return f[1]
     return "%s: %s -> %s" % (name, show(before.get(name)), show(after.get(name)))
+
+
+# ----------------------------------------------------------------------------------------------
+# "copy round trip": a resolution object that went through copy.deepcopy / pickle behaves bit-identically
+
+STEP_FRACTIONS = [0.1, 0.17, 0.2, 0.25, 0.3, 0.34, 0.38, 0.4, 0.5, 0.75, 1.0, 1.5]   # sigma / local data step
+
+
+def copy_round_trips(obj):
+    """[(name, copy or None, refusal text or None)] for copy.deepcopy and a pickle round trip.  A refusal (exception
+    while copying) is reported as such; what to make of it is the caller's decision."""
+    import copy
+    import pickle
+    out = []
+    for name, fn in (("deepcopy", copy.deepcopy), ("pickle", lambda o: pickle.loads(pickle.dumps(o)))):
+        try:
+            out.append((name, fn(obj), None))
+        except Exception as exc:  # noqa
+            out.append((name, None, "%s: %s" % (type(exc).__name__, exc)))
+    return out
